@@ -122,6 +122,7 @@ def subst_closure(e, caps, args=()):
     """rewrite an expression of a closure body in terms of its creator: ('param', 1, (k, ..)) is capture k,
     ('param', 2+i, ..) is the i-th call argument (if known)"""
     memo = {}
+    _alive = []  # objects whose id() is a memo key stay alive (ids of freed tuples are reused)
 
     def go(x):
         if not isinstance(x, tuple):
@@ -141,6 +142,7 @@ def subst_closure(e, caps, args=()):
         if r is None:
             r = tuple(go(y) for y in x)
         memo[k] = r
+        _alive.append(x)
         return r
 
     return go(e)
@@ -149,6 +151,7 @@ def subst_closure(e, caps, args=()):
 def subst_params(e, args):
     """replace ('param', i, fields) by the i-th argument expression (fields re-applied)"""
     memo = {}
+    _alive = []  # objects whose id() is a memo key stay alive (ids of freed tuples are reused)
 
     def go(x):
         if not isinstance(x, tuple):
@@ -162,6 +165,7 @@ def subst_params(e, args):
         else:
             r = tuple(go(y) for y in x)
         memo[k] = r
+        _alive.append(x)
         return r
 
     return go(e)
@@ -173,6 +177,7 @@ def inline_calls(prog, e, crate="svgbob", keep=None, depth=4, _stack=()):
     names that stay calls (the functions a rule wants to see)."""
     from .mirlib import Expr
     memo = {}
+    _alive = []  # objects whose id() is a memo key stay alive (ids of freed tuples are reused)
 
     def go(x, d):
         if not isinstance(x, tuple):
@@ -199,6 +204,7 @@ def inline_calls(prog, e, crate="svgbob", keep=None, depth=4, _stack=()):
         if r is None:
             r = tuple(go(y, d) if isinstance(y, tuple) else y for y in x)
         memo[k] = r
+        _alive.append(x)
         return r
 
     return go(e, depth)
@@ -213,6 +219,7 @@ def simplify(e):
     field(agg Some{0: t}, (@Some, 0, ..)) -> t..;  field(phi(a | b), fs) -> phi(field(a, fs) | field(b, fs));
     Try::branch(x).@Continue.0 -> x.@Some.0 (or @Ok.0);  from_residual(..) projected as a success -> dropped"""
     memo = {}
+    _alive = []  # objects whose id() is a memo key stay alive (ids of freed tuples are reused)
 
     def proj(x, fs):
         """x already simplified; apply the projection fs"""
@@ -266,6 +273,7 @@ def simplify(e):
         if key in memo:
             return memo[key]
         memo[key] = x  # cycle guard
+        _alive.append(x)
         if x[0] == "field" and len(x) >= 3:
             r = proj(go(x[1]), x[2])
         elif x[0] == "phi":
